@@ -36,7 +36,7 @@ if ok and checks:
     try:
         sh(f'git apply {dst}/patch.diff', cwd=w2)
         for c in checks:
-            r = sh(f'bin/check {c} --tier quick', cwd='/verif', env={'KNEE_REPO': w2})
+            r = sh(f'bin/check {c} --tier quick', cwd='/verif', env={'KNEE_REPO': w2, 'VERIF_EVIDENCE_DIR': w2 + '/.verif-evidence'})
             line = next((l for l in r.stdout.splitlines() if 'VIOLATION' in l), '')
             det[c] = dict(rc=r.returncode, line=line)
     finally:
